@@ -492,10 +492,22 @@ func lpRecursion(c *Ctx, a *flAgg) {
 	for _, comp := range sccs {
 		var names []string
 		okAll := true
+		nKnown := 0
 		for _, i := range comp {
+			if defaultInline(fns[i]) {
+				// a helper extracted from (and called back by) a listed recursion is part of it
+				continue
+			}
+			nKnown++
 			names = append(names, funcKey(fns[i]))
 			if _, ok := allowed[fns[i].Name()]; !ok {
 				okAll = false
+			}
+		}
+		if nKnown == 0 {
+			okAll = false
+			for _, i := range comp {
+				names = append(names, funcKey(fns[i]))
 			}
 		}
 		sort.Strings(names)
